@@ -70,6 +70,13 @@ func FromReader(reader io.Reader) (dialogue *Dialogue, err error) {
 	if len(errorListener.errors) != 0 {
 		return nil, fmt.Errorf("failed to parse content: %w", errors.Join(errorListener.errors...))
 	}
+	// the dialogue rule stops after the last complete node: whatever follows it has not been parsed
+	if next := stream.LT(1); next.GetTokenType() != antlr.TokenEOF {
+		return nil, fmt.Errorf("failed to parse content: line %d:%d unexpected content after the last node", next.GetLine(), next.GetColumn())
+	}
+	if len(errorListener.errors) != 0 { // lexer errors met while looking past the last node
+		return nil, fmt.Errorf("failed to parse content: %w", errors.Join(errorListener.errors...))
+	}
 
 	antlr.ParseTreeWalkerDefault.Walk(listener, parseTree)
 
